@@ -2,7 +2,7 @@
    AGV events fire exactly when due by the clock invariant of C12). *)
 From Coq Require Import List ZArith Bool.
 From JSL Require Import Base.Res Base.ListX SM.Types SM.Util SM.Handler SM.Step SM.Inv
-  SMP.Post SMP.PostApply SMP.Offers SMP.Clock SMP.ClockMain SMP.WF SMP.Reflect SMP.Feasible SMP.Unique SM.Middleware SMP.StepInv SMP.LiftSide SMP.OutputDone SMP.LiftProv SMP.ProvBatch.
+  SMP.Post SMP.PostApply SMP.Offers SMP.Clock SMP.ClockMain SMP.WF SMP.Reflect SMP.Feasible SMP.Unique SM.Middleware SMP.StepInv SMP.LiftSide SMP.OutputDone SMP.LiftProv SMP.ProvBatch SM.ExampleShift SMP.Durations SMP.Travel.
 Import ListNotations.
 
 (* dispatch: the AGV reaches the pickup point exactly travel(where it stands -> where the job lies)
@@ -126,3 +126,44 @@ Proof.
   apply side2_parts in S. tauto.
 Qed.
 Print Assumptions C07_every_pickup_claimed_and_not_in_process_flex.
+
+(* "an operation never starts earlier than its predecessor's end plus the travel time between the two machines", over
+   whole runs (SMP/Travel.v): in EVERY state and micro-state of EVERY run of the middleware on an instance whose machine
+   post-buffers are unordered (FLEX, the default), for every pair of consecutive operations of a job whose travel-time
+   entry (machine of the first -> machine of the second) is deterministic: start(second) >= end(first) + that entry
+   (travel_gap_b, also evaluated by the monitors on every implementation state). The invariant follows a job from the
+   completion of an operation to the start of the next: released into the post-buffer of the machine that finished it
+   (never into a standalone buffer while work is left: routes to buffers end in OUTPUT buffers, where only finished
+   jobs arrive), picked up there no earlier than the completion with the matrix entry for exactly that direction,
+   carried until pickup + travel (deliveries are applied exactly when due), available in front of the next machine no
+   earlier than that, and started no earlier than available. *)
+Theorem C07_start_after_predecessor_plus_travel_flex :
+  forall (sigma : oracle) (i : inst) (fuel : nat) (x0 : state) (joker0 : Z) (ta : bool) (r : result) (m : mw),
+    inst_nonneg_b i = true -> flex_post_b i = true ->
+    clock_b x0 = true -> wfs_b i x0 = true -> fresh2_b i x0 = true -> nodep_b x0 = true -> agv_phase_b x0 = true ->
+    reach sigma i fuel x0 joker0 ta r m -> travel_gap_b i (r_x r) = true.
+Proof. intros sigma i fuel x0 joker0 ta r m Hnn Hf. apply flex_travel_gap; auto. Qed.
+Print Assumptions C07_start_after_predecessor_plus_travel_flex.
+
+Theorem C07_start_after_predecessor_plus_travel_micro_states_flex :
+  forall (sigma : oracle) (i : inst) (fuel : nat) (x0 : state) (joker0 : Z) (ta : bool) (r : result) (m : mw)
+         (a : Z) (r' : result) (m' : mw) (lg : mlog),
+    inst_nonneg_b i = true -> flex_post_b i = true ->
+    clock_b x0 = true -> wfs_b i x0 = true -> fresh2_b i x0 = true -> nodep_b x0 = true -> agv_phase_b x0 = true ->
+    reach sigma i fuel x0 joker0 ta r m -> mw_step sigma i fuel r m a = MOk r' m' lg ->
+    forall tr y, In (tr, y) lg -> travel_gap_b i y = true.
+Proof. intros sigma i fuel x0 joker0 ta r m a r' m' lg Hnn Hf. apply flex_micro_travel_gap; auto. Qed.
+Print Assumptions C07_start_after_predecessor_plus_travel_micro_states_flex.
+
+(* non-vacuity: the hypotheses hold for a compiled instance with AGV and non-zero travel times, and a run reaches a state
+   in which a second operation has started *)
+Example C07_travel_gap_nontrivial :
+  agv_phase_b sh_init0 = true /\
+  exists r m, reach sh_sigma sh_inst 200 sh_init0 3%Z true r m
+              /\ existsb (fun jb => match j_ops jb with _ :: b :: _ => negb (is_ostate OIdle b) | _ => false end) (s_jobs (r_x r)) = true
+              /\ travel_gap_b sh_inst (r_x r) = true.
+Proof.
+  split; [vm_compute; reflexivity|].
+  destruct (runG sh_sigma sh_inst side2 200 sh_init0 3%Z true [1;1;1;1;1]%Z) as [[r m]|] eqn:E; [|vm_compute in E; discriminate].
+  exists r, m. split; [eapply reachG_reach; eapply runG_reach; exact E|]. vm_compute in E. inversion E; subst. vm_compute. split; reflexivity.
+Qed.
